@@ -487,6 +487,22 @@ def regex_violation(eng, key, ob, r, repo_root):
     base['model'] = 'x = %r' % (w,)
     if w is not None and ob.name.startswith('linebreak:'):
         return linebreak_violation(base, detail, w, repo_root)
+    if w is not None and ob.name.startswith('model:'):
+        rep = {'check': 'C13.model_table', 'args': {'$d': [['model', (ob.info or {}).get('model', 'amr')], ['role', w]]}}
+        env = dict(os.environ, PYTHONPATH=repo_root + os.pathsep + VERIF, VERIF_REPO=repo_root, PYTHONDONTWRITEBYTECODE='1')
+        pr = subprocess.run([PY_PENMAN, '-m', 'vlib.bounded.drv', '--replay', json.dumps(rep)],
+                            cwd=VERIF, env=env, capture_output=True, text=True, timeout=120)
+        try:
+            out = json.loads(pr.stdout.strip().splitlines()[-1])
+        except Exception:
+            out = {}
+        if out.get('detail') not in (None, 'SKIP') and out.get('finding') is None:
+            base['replay'] = dict(rep, native=out)
+            base.update({'detail': 'model fact %s is refuted; REPRODUCED natively: %s' % (ob.name, out['detail'][:200]), 'suffix': ''})
+        else:
+            base.update({'detail': 'model fact %s is refuted; the real model does not confirm witness %r' % (ob.name, w),
+                         'suffix': 'no-failing-input-found'})
+        return base
     if w is None:
         base.update({'detail': detail, 'suffix': 'no-failing-input-found'})
         return base
